@@ -353,6 +353,11 @@ func (*socket) Info() protocol.Info {
 
 func (s *socket) AddPipe(pp protocol.Pipe) error {
 
+	s.Lock()
+	if s.closed {
+		s.Unlock()
+		return protocol.ErrClosed
+	}
 	p := &pipe{
 		p:      pp,
 		s:      s,
@@ -360,11 +365,6 @@ func (s *socket) AddPipe(pp protocol.Pipe) error {
 		closeQ: make(chan struct{}),
 	}
 	pp.SetPrivate(p)
-	s.Lock()
-	if s.closed {
-		s.Unlock()
-		return protocol.ErrClosed
-	}
 	go p.sender()
 	go p.receiver()
 	s.Unlock()
